@@ -331,13 +331,16 @@ class Isa(object):
             b = b + bytes([rnd.randrange(0, 12)])
         if tail:
             n = rnd.randrange(0, 17)
-            kind = rnd.randrange(4)
+            kind = rnd.randrange(5)
             if kind == 0:
                 t = bytes(n)
             elif kind == 1:
                 t = b"\xff" * n
             elif kind == 2:
                 t = b"\x90" * n
+            elif kind == 3:
+                # all bytes distinct: an operand recorded or read in the wrong byte order shows
+                t = bytes((0x11 * (j + 1)) & 0xFF for j in range(n))
             else:
                 t = bytes(rnd.getrandbits(8) for _ in range(n))
             b = b + t
